@@ -37,3 +37,12 @@ VARIANTS += [
       rule='C08-READONLY', key='execute_scalar'),
     M('C08', 'refactor-cursor-from-dbc', E(DR, "        self.cursor = db.connection.cursor()", "        self.cursor = self.dbc.cursor()"), kind='refactor'),
 ]
+
+VARIANTS += [
+    M('C08', 'zero-length-treated-as-no-value', [E(DR, "                return agg(lengths)\n            else:\n                return None\n", "                length = agg(lengths)\n            else:\n                length = None\n"),
+                                                 E(DR, "            return self.execute_scalar(sql)\n\n    def get_database_nunique", "            length = self.execute_scalar(sql)\n        return int(length) if length else None\n\n    def get_database_nunique")],
+      rule='C08-ZERO', key='extreme_length'),
+    M('C08', 'refactor-length-none-test', [E(DR, "                return agg(lengths)\n            else:\n                return None\n", "                length = agg(lengths)\n            else:\n                length = None\n"),
+                                           E(DR, "            return self.execute_scalar(sql)\n\n    def get_database_nunique", "            length = self.execute_scalar(sql)\n        return int(length) if length is not None else None\n\n    def get_database_nunique")],
+      kind='refactor'),
+]
